@@ -9,7 +9,8 @@ CMAKE_MODULE = os.path.join(common.REPO, 'cmake', 'cminx.cmake')
 PY = sys.executable
 EXTRA_GROUPS = [['-p', 'PFX'], ['-p', 'my.pre'], ['-e', 'sub/'], ['-e', '*.txt'], ['-e', 'a.cmake', '-e', 'b.cmake'], ['-s', '{SFILE}'],
                 ['--prefix', 'L'], ['-e', 'deep/'], ['-p', 'my prefix'], ['-e', 'dir with space/'], ['-p', 'quo"te'], ['-p', '$dollar{x}'],
-                ['-e', '#hash'], ['-p', 'back\\slash']]
+                ['-e', '#hash'], ['-p', 'back\\slash'], ['-p', 'Docs-NOTFOUND'], ['-e', '*-NOTFOUND'], ['--prefix=X-NOTFOUND'], ['-p', 'OFF'], ['-p', '0']]
+FALSE_CONSTANT_GROUPS = [['-p', 'Docs-NOTFOUND'], ['-e', '*-NOTFOUND'], ['--prefix=X-NOTFOUND'], ['-p', 'x', '-e', 'pkg-NOTFOUND']]   # ARGN is then false as a CMake condition
 
 
 def cq(s):
@@ -95,6 +96,7 @@ def cmake_suite(seed, count, out, drv, budget_s=None, only=None):
             extra = []
             for grp in g.sample(EXTRA_GROUPS, g.choice([0, 0, 1, 1, 2, 3])):
                 extra += [x.replace('{SFILE}', sfile) for x in grp]
+            if n % 6 == 5: extra += g.choice(FALSE_CONSTANT_GROUPS)
             mode = ['script', 'project'][n % 2]; rel = (n // 2) % 2 == 1
             if rel: inp = os.path.relpath(inp, sb.dir)        # relative to the working directory of both cmake and the direct run
             key = ('C19', seed, n); rec = dict(suite='cmake', key=key, kind=kind, extra=extra, mode=mode, relative_input=rel)
